@@ -284,6 +284,13 @@ class Assembly:
 
 
 STUBS = {
+    "str_repeat": "str::repeat, crate::verif_shims::str_repeat_small",
+    "string_new": "alloc::string::String::new, crate::verif_shims::string_new_roomy",
+    "push_str": "alloc::string::String::push_str, crate::verif_shims::push_str_nogrow",
+    "fmt_upper_letters": "crate::page_labels::page_label::PageLabelStyle::format, crate::page_labels::page_label::verif_harness::format_only_upper_letters",
+    "string_insert": "alloc::string::String::insert, crate::verif_shims::string_insert_ascii",
+    "string_push": "alloc::string::String::push, crate::verif_shims::string_push_ascii",
+    "to_uppercase": "str::to_uppercase, crate::verif_shims::str_to_uppercase_ascii",
     "fmt": "alloc::fmt::format, crate::verif_shims::fmt_stub",
 }
 
